@@ -189,8 +189,8 @@ func (d *DBFT[H]) sendCommit() {
 func (d *DBFT[H]) sendRecoveryRequest() {
 	// If we're here, something is wrong, we either missing some messages or
 	// transactions or both, so re-request missing transactions here too.
-	if d.RequestSentOrReceived() && !d.hasAllTransactions() {
-		d.processMissingTx()
+	if d.RequestSentOrReceived() && len(d.MissingTransactions) != 0 {
+		d.RequestTx(d.MissingTransactions...)
 	}
 	req := d.NewRecoveryRequest(uint64(d.Timer.Now().UnixNano()))
 	d.broadcast(d.NewConsensusPayload(&d.Context, RecoveryRequestType, req))
